@@ -367,7 +367,7 @@ def A_goenc(name, level, **kw):
 
 def A_godec(name, level, **kw):
     def run(ctx):
-        run_A(ctx, 'MCGoDec', name, {'EmitOn': 'TRUE', 'Level': level, 'MaxNest': 10000, 'MaxDepth': 10000}, invariants=('TypeKept', 'Stable', 'NullIsZero', 'UseNumberOnlyIface', 'Modelled'),
+        run_A(ctx, 'MCGoDec', name, {'EmitOn': 'TRUE', 'Level': level, 'MaxNest': 10000, 'MaxDepth': 10000}, invariants=('TypeKept', 'Stable', 'NullIsZero', 'UseNumberOnlyIface', 'StrictOnlyAddsErrors', 'Modelled'),
               spec='DecSpec', **kw)
     return run
 
